@@ -20,7 +20,22 @@ Oracle after every transition (quotes the property):
   * probe at every reached state: after ``flush`` the stored value equals the
     in-memory value, and after ``commit`` + reload in a new Session it still does.
 
-Mutations caught: see the builder report (list kept in sync at the bottom).
+Mutations caught (each in a private copy of lib/, ``VF_REPO=... ./check C49``; all gave new VIOLATION signatures):
+
+* ``MutableDict.setdefault``: ``self.changed()`` dropped
+* ``MutableList.__setitem__``: ``changed()`` only for non-slice indexes
+* ``MutableSet.discard``: ``self.changed()`` dropped
+* ``_listen_on_attribute.unpickle``: parents not re-established after unpickling
+* ``_listen_on_attribute.set_``: ``value._parents[target] = key`` dropped (assigned / coerced values untracked)
+* the ``refresh`` listener not registered (values re-loaded after expire / commit / rollback untracked)
+* ``MutableComposite.changed``: only the first column attribute written back
+* the ``_sa_event_merge_wo_load`` listener not registered (merge(load=False) onto a present instance)
+* ``MutableDict.coerce``: an empty plain dict coerced to None
+
+Genuine defects found on the unchanged tree (reported; /verif/proposed_fixes/c49_*.diff): ``MutableDict |= other``
+and ``MutableList *= n`` do not call ``changed()`` (change never flushed); after ``Session.merge()`` of an object
+whose MutableComposite was mutated, the merged instance keeps the stale composite built at load time and the next
+in-place mutation writes the stale column values back (lost update).
 """
 from __future__ import annotations
 
@@ -31,6 +46,7 @@ import pickle
 import sqlalchemy as sa
 from sqlalchemy.orm import Session
 
+from .. import core
 from ..engines import hist
 from ..worlds import collworld as cw
 
@@ -346,6 +362,7 @@ class Impl:
                 self.sess.commit()
                 self.sess.close()
                 self.sess = Session(self.engine)
+                self._keep = self.sess.get(self.Doc, 1)  # already present (strongly referenced) in the target Session: merge copies onto it
                 self.doc = self.sess.merge(self.doc, load=False)
             elif n == "assign":
                 self._assign(self.doc, op[1])
@@ -507,7 +524,7 @@ def opstr(kind, op):
     if n == "merge_new":
         return "session.commit(); session.close(); doc = Session().merge(doc)"
     if n == "merge_noload":
-        return "session.expire_on_commit = False; session.commit(); session.close(); doc = Session().merge(doc, load=False)"
+        return "session.expire_on_commit = False; session.commit(); session.close(); s2 = Session(); s2.get(Doc, 1); doc = s2.merge(doc, load=False)"
     if n == "assign":
         return "%s = %r" % (tgt, args[0])
     if n == "assign_none":
@@ -516,11 +533,20 @@ def opstr(kind, op):
         return "doc.pt.x = %r" % args[0]
     if n == "sety":
         return "doc.pt.y = %r" % args[0]
+    if n == "setslice":
+        return "%s[%s:%s] = %r" % (tgt, args[0][0], args[0][1], args[1])
+    if n == "delslice":
+        return "del %s[%s:%s]" % (tgt, args[0][0], args[0][1])
+    if n == "setitem":
+        return "%s[%r] = %r" % (tgt, args[0], args[1])
+    if n == "delitem":
+        return "del %s[%r]" % (tgt, args[0])
     return "%s.%s(%s)" % (tgt, n, ", ".join(repr(a) for a in args))
 
 
-def check_transition(kind, init, history, op):
-    """-> (problems [(aspect, text)], new model, key, info)"""
+def check_transition(kind, init, history, op, need_probe=None):
+    """-> (problems [(aspect, text)], new model, key, info).  need_probe(key) -> bool lets the explorer run the
+    flush / commit / reload probe once per distinct reached state instead of once per transition."""
     impl, model = build(kind, init, history)
     try:
         was_dirty_expected = model.mem != model.db
@@ -554,7 +580,8 @@ def check_transition(kind, init, history, op):
         key = model.key(loaded, dirty)
         info = dict(nontrivial=bool((is_mut and model.mem != model.db) or (not is_mut and was_dirty_expected)), outcome=(kind, op[0], type(exc).__name__ if exc else "ok", dirty, loaded))
         # probe: flush (and commit + reload) from this state
-        if not problems:
+        if not problems and (need_probe is None or need_probe(key)):
+            info["probed"] = True
             try:
                 impl.sess.flush()
                 st = impl.stored()
@@ -579,14 +606,11 @@ def check_transition(kind, init, history, op):
 # ------------------------------------------------------------------ driver
 
 
+PARTS = 10
+
+
 def shards(tier, seed):
-    out = []
-    for kind in KINDS:
-        for i, init in enumerate(INITS[kind]):
-            first = enabled(kind, Model(kind, init))
-            for j in range(len(first)):
-                out.append([kind, i, j])
-    return out
+    return [[kind, i, part, PARTS] for kind in KINDS for i in range(len(INITS[kind])) for part in range(PARTS)]
 
 
 def _sig(kind, init, history, op, aspect, text):
@@ -639,43 +663,54 @@ def minimal(kind, opname, trigger):
 
 
 def run_shard(shard, tier, rec):
-    kind, ii, j = shard
+    kind, ii, part, parts = shard
     init = INITS[kind][ii]
     depth = 3 if tier == "quick" else 4
     cw.world()
     root_model = Model(kind, init)
-    first = enabled(kind, root_model)[j]
 
-    def step(history, ms, op):
-        problems, nm, key, info = check_transition(kind, init, history, op)
-        rec.case((kind, ii, repr(history), repr(op)), nontrivial=info["nontrivial"])
-        rec.outcome(info["outcome"])
-        rec.count("transitions_" + kind)
+    def step(history, ms, op, record=True):
+        problems, nm, key, info = check_transition(kind, init, history, op, need_probe=lambda k: core.h64(k) not in rec.states)
+        if record:
+            if info.get("probed"):
+                rec.count("flush_reload_probes")
+            rec.case((kind, ii, repr(history), repr(op)), nontrivial=info["nontrivial"])
+            rec.outcome(info["outcome"])
+            rec.count("transitions_" + kind)
         if problems:
-            aspect, text = problems[0]
-            minit, mhist, mop, maspect, mtext = minimal(kind, op[0], (init, [list(h) for h in history], op, aspect, text))
-            rec.violation(
-                _sig(kind, minit, mhist, mop, maspect, mtext),
-                "first seen at: " + _sig(kind, init, history, op, aspect, text),
-                dict(kind=kind, init=minit, history=[list(h) for h in mhist], op=mop),
-            )
+            if record:
+                aspect, text = problems[0]
+                minit, mhist, mop, maspect, mtext = minimal(kind, op[0], (init, [list(h) for h in history], op, aspect, text))
+                rec.violation(
+                    _sig(kind, minit, mhist, mop, maspect, mtext),
+                    "first seen at: " + _sig(kind, init, history, op, aspect, text),
+                    dict(kind=kind, init=minit, history=[list(h) for h in mhist], op=mop),
+                )
             return None
-        if info["nontrivial"]:
+        if record and info["nontrivial"]:
             rec.sample(dict(kind=kind, init=init, history=[opstr(kind, o) for o in list(history) + [op]], mem=nm.mem, db=nm.db), limit=4)
         return nm, key
 
-    # the shard owns the subtree below its first op
-    rec.transition()
-    rec.trace()
-    out = step((), root_model, first)
-    if out is None:
-        return
-    nm, key = out
-    roots = [((first,), nm, (ii, j) + tuple(key))]
+    # level 1 is executed by every part (cheap), recorded by part 0 only; its distinct states
+    # are dealt round-robin to the parts, which own the subtrees below them
+    seen, level1 = set(), []
+    for op in enabled(kind, root_model):
+        if part == 0:
+            rec.transition()
+            rec.trace()
+        out = step((), root_model, op, record=(part == 0))
+        if out is None:
+            continue
+        nm, key = out
+        if key in seen:
+            continue
+        seen.add(key)
+        level1.append(((op,), nm, key))
+    roots = [r for i, r in enumerate(level1) if i % parts == part]
+    if part == 0:
+        rec.state(("root", kind, ii))
+        rec.count("level1_states_%s%d" % (kind, ii), len(level1))
     d = hist.explore(rec, roots, lambda ms: enabled(kind, ms), step, depth=depth - 1)
-    rec.count("max_depth_reached", 0)
-    if d + 1 > rec.counters.get("depth_%s" % kind, 0):
-        rec.counters["depth_%s" % kind] = d + 1
 
 
 def replay(case):
